@@ -153,6 +153,7 @@ type FnV struct {
 	panicking string
 	subSeen map[string]bool
 	curHeld string
+	published []publishedRef
 	ownRecover bool
 	pendingOrder []string
 }
